@@ -339,9 +339,9 @@ class BaseInput:
             # first row is columns
             cols = next(data)
             data = list(data)
-            return pd.DataFrame(data, columns=cols, dtype=str)
+            return pd.DataFrame(data, columns=cols, dtype=str).fillna("")
         else:
-            return pd.DataFrame(worksheet.values, dtype=str)
+            return pd.DataFrame(worksheet.values, dtype=str).fillna("")
 
     def validate(self, hed_schema, extra_def_dicts=None, name=None, error_handler=None):
         """Creates a SpreadsheetValidator and returns all issues with this file.
